@@ -203,7 +203,7 @@ def coq_case(c, r):
         oc = None if (c['args'] is None or c.get('in_init')) else c['args']
         world = [w for w in r['world'] if w[0] != 4]
         return (f'eval_case_tv {coq_world(world)} {nat(c["inst"])} {"None" if oc is None else "(Some " + toks(oc) + ")"} '
-                f'{nat(c["op"])} {coq_shape(c["shape"])}')
+                f'{nat(c["op"])} {coq_shape(c["shape"])} {coq_bool(bool(c.get("full")))}')
     eff = effective_defs(c, r['world'], r['dir'])
     if eff is None:
         return None
@@ -236,12 +236,12 @@ def gen_tv(rng, tier):
 
     mixin_first = rng.random() < 0.3
 
-    def direct_class(tvs, pre_alias=None):
+    def direct_class(tvs, pre_alias=None, mixin=True):
         pre = plains(rng.choice([0, 0, 1, 2])) + ([pre_alias] if pre_alias else [])
         post = plains(rng.choice([0, 0, 1, 2]))
         rng.shuffle(pre)
         bases = pre + [['generic', tvs]] + post
-        if not pre_alias:
+        if not pre_alias and mixin:
             pos = [i for i in range(len(bases) + 1)]
             gi = len(pre)
             pos = [p for p in pos if (p <= gi if mixin_first else p > gi)]
@@ -262,7 +262,8 @@ def gen_tv(rng, tier):
     n = rng.choice([1, 1, 2, 2, 3, 4] + ([5, 6] if nmax > 4 else []))
     tvs = rng.sample(range(8), n)
     args = [20 + rng.randrange(12) for _ in range(n)]
-    kind = rng.choice(['direct'] * 30 + ['binding'] * 40 + ['nongeneric'] * 8 + ['direct_after_alias'] * 6 + ['other'] * 16)
+    kind = rng.choice(['direct'] * 30 + ['binding'] * 40 + ['nongeneric'] * 8 + ['direct_after_alias'] * 6 + ['other'] * 16
+                      + ['binding_foreign'] * 8)
     case = {'stream': 'tv', 'op': rng.choice([0, 0, 0, 1]), 'in_init': False, 'args': None}
     if kind == 'direct':
         c = direct_class(tvs)
@@ -281,15 +282,37 @@ def gen_tv(rng, tier):
         if rng.random() < 0.8:
             case['args'] = args
         case['shape'] = ['direct', tvs, case['args']]
-    elif kind == 'binding':
+    elif kind in ('binding', 'binding_foreign'):
         b = direct_class(tvs)
         post = plains(rng.choice([0, 0, 1, 2]))
+        front = []
+        if kind == 'binding_foreign':
+            # a parametrised base in front of the binding base that has nothing to do with the mixin
+            # (region of the known findings K-C20-builtin-alias-first / K-C20-foreign-generic-first)
+            for _ in range(rng.choice([1, 1, 2])):
+                if rng.random() < 0.5:
+                    front.append(['builtin', 'list', [20 + rng.randrange(12)]])
+                else:
+                    tvf = rng.sample(range(8), rng.choice([1, 2]))
+                    p = direct_class(tvf, mixin=False)
+                    front.append(['alias', p, [20 + rng.randrange(12) for _ in tvf]])
+            case['full'] = True
+        elif rng.random() < 0.12:
+            # a parametrised base the scan passes over: Mid[z] with class Mid(D0[T]) forwarding its parameter
+            tvm = rng.sample(range(8), 1)
+            d0 = direct_class(tvm)
+            mid = nid()
+            classes.append({'id': mid, 'bases': [['alias', d0, tvm]]})
+            front.append(['alias', mid, [20 + rng.randrange(12)]])
         if rng.random() < 0.25:
             tv2 = rng.sample(range(8), rng.choice([1, 2]))
             b2 = direct_class(tv2)
             post.insert(rng.randrange(len(post) + 1), ['alias', b2, [20 + rng.randrange(12) for _ in tv2]])
         c = nid()
-        classes.append({'id': c, 'bases': plains(rng.choice([0, 0, 1, 2])) + [['alias', b, args]] + post})
+        pre = plains(rng.choice([0, 0, 1, 2])) + front
+        rng.shuffle(pre)
+        classes.append({'id': c, 'bases': pre + [['alias', b, args]] + post})
+        case['binding_cls'] = c
         c = sub_levels(c, rng.choice([0, 0, 0, 1, 2]))
         case['in_init'] = rng.random() < 0.2
         case['shape'] = ['binding', tvs, args]
@@ -505,10 +528,10 @@ def read_dm_model(m, n_members):
         k = rd.one()
         p = rd.take(2 * k)
         demanded.append(sorted(zip(p[0::2], p[1::2])))
-    claimed, no_dd, m_ok = rd.take(3)
+    in_dom, no_raise, no_dd, m_ok = rd.take(4)
     nj = rd.one()
     journal = [rd.take(5) for _ in range(nj)]
-    return res, demanded, bool(claimed), bool(no_dd), bool(m_ok), journal
+    return res, demanded, bool(in_dom), bool(no_raise), bool(no_dd), bool(m_ok), journal
 
 
 def split_result(out):
@@ -539,7 +562,7 @@ def expected_journal(c, eff_ids):
 
 
 def judge_dm(c, r, m):
-    res, demanded, claimed, no_dd, m_ok, m_journal = read_dm_model(m, len(c['members']))
+    res, demanded, claimed, no_raise, no_dd, m_ok, m_journal = read_dm_model(m, len(c['members']))     # claimed: in the domain
     i_out = r['out']
     corr = i_out == res
     what = []
@@ -556,7 +579,7 @@ def judge_dm(c, r, m):
         if i_out[0] != 3 and not (i_out[0] == 1 and i_out[1] == ASSERTION):      # 3: no class, the class body raised
             what.append(f'unparametrised WithDecoratedMethods must raise AssertionError, outcome {i_out[:4]} ({r.get("exc_name")})')
             bad['other'] = True
-        return corr, not what, '; '.join(what), claimed, no_dd, m_ok, bad
+        return corr, not what, '; '.join(what), claimed, no_dd and no_raise, m_ok, bad, no_raise
     if claimed:
         got = split_result(i_out)
         if got is None:
@@ -589,7 +612,7 @@ def judge_dm(c, r, m):
                 if have_j != want_j:
                     bad['ids'].update(j[1] for j in have_j + want_j if (j in have_j) != (j in want_j))
                     what.append(f'transformations were called with (kind, function id, member, value) {have_j}, demanded {want_j}')
-    return corr, not what, '; '.join(what), claimed, no_dd, m_ok, bad
+    return corr, not what, '; '.join(what), claimed, no_dd and no_raise, m_ok, bad, no_raise
 
 
 def dm_size(c):
@@ -616,8 +639,14 @@ def shrink_candidates(c, bad):
                         'classes': [{'id': 10, 'name': cl.get('name') or 'K', 'bases': [['wdm', 'enum']], 'defs': [d2]}]})
     if not bad['other']:
         return out
-    # the body without its decorated methods of dunder name
-    cut = False
+    # the raising properties alone
+    rp = [(cl, d) for cl in c['classes'] for d in cl.get('defs', []) if d['kind'] == 'prop_raise']
+    if rp:
+        out.append({'stream': 'dm', 'members': c['members'][:1], 'inst': 10, 'param': True,
+                    'classes': [{'id': 10, 'name': 'K', 'bases': [['wdm', 'enum']],
+                                 'defs': [dict(rp[0][1], id=1, inner=[], outer=[])]}]})
+    # the body without its decorated methods of dunder name and without raising properties
+    cut = bool(rp)
     classes = []
     for cl in c['classes']:
         cname = cl.get('name') or 'K'
@@ -625,7 +654,7 @@ def shrink_candidates(c, bad):
         for d in cl.get('defs', []):
             if d['kind'] in KIND_OF and (d.get('inner') or d.get('outer')) and mangle(cname, d['name']).startswith('__'):
                 cut = True
-            else:
+            elif d['kind'] != 'prop_raise':
                 keep.append(d)
         names = {d['name'] for d in keep}
         keep = [d for d in keep if d['kind'] != 'alias' or d['target'] in names]
@@ -635,14 +664,46 @@ def shrink_candidates(c, bad):
     return out
 
 
-# known finding K9 --------------------------------------------------------------------------------------
-def k9_matcher(finding, case):
-    """every decorated definition of the (shrunk) case is a method whose dir() name starts with two underscores"""
-    if finding.get('matcher', {}).get('id') != 'decorated_method_with_dunder_name' or case.get('stream') != 'dm':
+# known findings ---------------------------------------------------------------------------------------
+def first_foreign(case):
+    """tv: the first parametrised base in front of the binding base that has nothing to do with the mixin:
+    'builtin' (List[..]: origin without __orig_bases__) / 'generic' (origin declares Generic, no GenericMixin) / None"""
+    by = {cl['id']: cl for cl in case.get('classes', [])}
+    cl = by.get(case.get('binding_cls'))
+    if not cl:
+        return None
+    for b in cl['bases']:
+        if b[0] == 'builtin':
+            return 'builtin'
+        if b[0] == 'alias':
+            o = by.get(b[1], {'bases': []})
+            if any(x[0] == 'mixin' for x in o['bases']):
+                return None                      # the binding base
+            if any(x[0] == 'generic' for x in o['bases']):
+                return 'generic'
+            # an origin that forwards to a class using the mixin is passed over by the scan
+    return None
+
+
+def known_matcher(finding, case):
+    mid = finding.get('matcher', {}).get('id')
+    if case.get('stream') == 'tv':
+        return {'builtin_alias_before_binding_base': 'builtin', 'foreign_generic_before_binding_base': 'generic'}.get(mid, 0) == first_foreign(case)
+    if case.get('stream') != 'dm':
         return False
-    decorated = [(cl, d) for cl in case['classes'] for d in cl.get('defs', []) if d.get('inner') or d.get('outer')]
-    return bool(decorated) and all(d['kind'] in ('plain', 'async', 'class', 'static')
-                                   and mangle(cl.get('name') or 'K', d['name']).startswith('__') for cl, d in decorated)
+    defs = [(cl, d) for cl in case['classes'] for d in cl.get('defs', [])]
+    decorated = [(cl, d) for cl, d in defs if d.get('inner') or d.get('outer')]
+    if mid == 'decorated_method_with_dunder_name':
+        # every decorated definition of the (shrunk) case is a method whose dir() name starts with two underscores
+        return bool(decorated) and all(d['kind'] in ('plain', 'async', 'class', 'static')
+                                       and mangle(cl.get('name') or 'K', d['name']).startswith('__') for cl, d in decorated)
+    if mid == 'only_raising_properties':
+        # the (shrunk) class body consists of properties whose getter raises, nothing is decorated
+        return bool(defs) and not decorated and all(d['kind'] == 'prop_raise' and not d['name'].startswith('__') for _, d in defs)
+    return False
+
+
+k9_matcher = known_matcher
 
 
 def evaluate(ck, cases):
@@ -698,11 +759,12 @@ def run(tier, seed, replay=None):
                 nontrivial = len(c['classes']) >= 2
                 if g:
                     glue.append({'case': c, 'what': g})
-                if not m_meets:
+                if not m_meets and not c.get('full'):      # full: region of the refuted statement
                     meets_fail.append({'case': c, 'model': m})
             else:
-                corr, prop, what, claimed, no_dd, m_ok, bad = judge_dm(c, r, m)
-                label = ('claimed' if claimed else 'near-miss') + ('' if no_dd else '+dunder') + ('' if c['param'] else '/unparam')
+                corr, prop, what, claimed, no_dd, m_ok, bad, no_raise = judge_dm(c, r, m)     # no_dd: outside every known-finding region
+                label = ('claimed' if claimed else 'near-miss') + ('' if no_raise else '+raising-property') + \
+                        ('' if no_dd or not no_raise else '+dunder') + ('' if c['param'] else '/unparam')
                 outc = {0: 'result', 1: 'raise', 2: 'value', 3: 'class-body-raise'}[r['out'][0]]
                 key = json.dumps([c['members'], c['classes']])
                 nontrivial = dm_size(c)[1] >= 1
@@ -723,7 +785,7 @@ def run(tier, seed, replay=None):
             if st == 'dm':
                 failing_dm.append((c, r, m, what, bad))
             else:
-                ck.violation(what, c, stream='mixins/tv', extra={'impl': r, 'model': m})
+                ck.violation(what, c, stream='mixins/tv', extra={'impl': r, 'model': m}, matcher=known_matcher)
         elif not corr:
             disagreements.append({'case': c, 'impl': {k: r[k] for k in ('out', 'journal', 'stage', 'exc_name') if k in r}, 'model': m})
 
